@@ -558,10 +558,10 @@ class Device(nfc.clf.device.Device):
                     raise nfc.clf.BrokenLinkError("RFOFF")
                 try:
                     brty, data = data.split()
-                except ValueError:
+                    brty = brty.decode("ascii")
+                    data = bytearray(unhexlify(data))
+                except ValueError:  # also non-ascii or non-hex content
                     raise nfc.clf.TransmissionError("no data")
-                brty = brty.decode("ascii")
-                data = bytearray(unhexlify(data))
                 self.rcvd_data += len(data)
                 if brty in brty_list:
                     return brty, data, addr
